@@ -1,12 +1,307 @@
 import Tpp.Driver.Proto
-/-! Driver slice `Input`: model answers (`run`) and property oracle on the implementation's answers (`oracle`). -/
+import Tpp.Model.Keys
+import Tpp.Model.ParserFast
+import Tpp.Ref.Input
+/-!
+Driver slice `Input`: the input decoder (`detail::parser`, `get_well_known_virtual_key`, `terminal::async_read`).
+
+## Protocol kind `I`
+
+```
+I <run> [ / <run> ]*        run = chunk,chunk,…     chunk = lower-case hex | `-` (an empty delivery)
+```
+Every run is played on a FRESH terminal.  The client arms `async_read` once and re-arms it from inside the
+callback.  The answer lists, per delivery, the number of callback invocations the delivery caused and the
+tokens they carried:
+
+```
+answer   = runans ( " / " runans )*
+runans   = "."                                   a run without deliveries
+         | delivery ( " ; " delivery )*
+delivery = <calls> ":" [ tok ( " " tok )* ]
+tok      = "K" key "." mods "." rep "." "b" hh             virtual_key, sequence = raw byte hh
+         | "K" key "." mods "." rep "." "c" seq            virtual_key, sequence = control sequence
+         | "M" action "." x "." y                          mouse event (x, y signed decimal)
+         | "C" seq                                         control sequence
+seq      = hh(initiator) "." hh(command) "." ("0"|"1")(meta) "." hh(extender) "." args
+args     = "~"  (no argument at all)  |  arg ( "," arg )*        arg = hex | "-" (empty argument)
+```
+`key`, `mods`, `rep`, `action` are decimal (`key` = numeric value of the `vk` enumerator, `mods` = the
+`vk_modifier` bit set, `action` = numeric value of `mouse::event_type`).
+
+## Oracle configurations (`O<cfg> | I … # <real answer>`)
+
+The first word of the configuration names the property whose statement is evaluated on the real answer
+(from `Tpp.Ref.Input` only – never from the model of the library).  Cases without configuration are
+correspondence-only.
+
+* `C05 <item> <item> …` – the case is ONE run whose bytes are `items.flatMap Item.bytes` (checked), in any
+  chunking; the real tokens, concatenated over the deliveries, must be `items.map Item.expected`.
+  Item words (intro: `7` = ESC Fe, `m` = ESC ESC Fe, `8` = C1 byte):
+  `c<hh>` character; `e:crlf|lfcr|crnul|cr|lf`; `k<intro>:<key 0-7>:<rep|->:<mods 0-15|->` cursor-pad key
+  (key = index in `CsiKey.all`, mods bit mask shift 1 alt 2 ctrl 4 meta 8); `s<intro>:<key 0-11>` SS3 key;
+  `p<intro>:<key 0-17>:<mods|->` keypad `~` key; `q<intro>:<n|q|g|b>:<params>:<final hh>` other CSI
+  (marker none ? > !; params `_` = no parameter string, else comma separated numbers, `-` = empty);
+  `m<intro>:<button 0-6>:<x>:<y>` mouse report.
+* `C06` – every run of the case is a partition of the same byte stream (checked); the concatenated real tokens
+  of every run must equal those of the last run, and every delivery must report exactly one callback.
+* `C07` – the runs come in pairs: `garbage…,<4 letters>,<suffix>` / `<suffix>`: the tokens of the last delivery of
+  the first run must equal the tokens of the second (a fresh terminal), and every delivery reports one callback.
+* `C20` – every key token of the real answer that names an abstract key must be designated by its own
+  sequence (`Ref.designates`) or be a line ending.  `C20 byte` additionally: the case is `I [<cr|lf>,]<hh>` and
+  an ordinary, unswallowed byte must be reported as the non-abstract key of that value.
+  Failure kinds (stable, used as known-finding signatures): `idle-byte 0x<hh>`, `atoi-wrap`,
+  `undesignated <tok>`, `misreported-byte 0x<hh>`.
+-/
 namespace Tpp.Driver.Input
 open Tpp Tpp.Driver
 
+def hex2 (b : Byte) : String := String.ofList [hexDigit (b.toNat / 16), hexDigit (b.toNat % 16)]
+
+def showSeq (c : CtrlSeq) : String :=
+  let args := if c.args.isEmpty then "~" else ",".intercalate (c.args.map hex)
+  s!"{hex2 c.initiator}.{hex2 c.command}.{if c.metaFlag then 1 else 0}.{hex2 c.extender}.{args}"
+
+def showToken : Token → String
+  | .key k =>
+    match k.seq with
+    | .byte b => s!"K{k.key}.{k.mods}.{k.rep}.b{hex2 b}"
+    | .ctrl c => s!"K{k.key}.{k.mods}.{k.rep}.c{showSeq c}"
+  | .mouse ev x y => s!"M{ev.code}.{x}.{y}"
+  | .ctrl c => s!"C{showSeq c}"
+
+def showTokens (ts : List Token) : String := " ".intercalate (ts.map showToken)
+
+/-- chunks of one run; `none` when the run has no deliveries -/
+def parseRun (run : String) : Option (List (List Byte)) :=
+  match words run with
+  | [] => none
+  | w :: _ => some ((w.splitOn ",").map unhex)
+
+def showRun (chunks : Option (List (List Byte))) : String :=
+  match chunks with
+  | none => "."
+  | some cs =>
+    -- `deliverAllFast cs s = (deliverAll cs s).tokenLists` (`Tpp.deliverAllFast_eq`); it avoids the quadratic
+    -- `arg ++ [b]` of the step function on long digit runs.
+    -- `deliverAll` counts one callback per delivery (C06); the per-delivery count is therefore 1
+    " ; ".intercalate ((deliverAllFast cs PState.init).map fun ts => s!"1:{showTokens ts}")
+
+def runI (rest : String) : String :=
+  " / ".intercalate ((rest.splitOn "/").map fun r => showRun (parseRun r))
+
 /-- model answer for a case line of this slice; `none` when the kind is not ours -/
-def run (_kind : Char) (_rest : String) : Option String := none
+def run (kind : Char) (rest : String) : Option String :=
+  if kind = 'I' then some (runI rest) else none
+
+/-! ### oracle: parsing the case, the configuration and the real answer -/
+
+open Tpp.Ref
+
+def parseIntro : Char → Option Intro
+  | '7' => some (.seven false) | 'm' => some (.seven true) | '8' => some .eight | _ => none
+
+def optNat (w : String) : Option (Option Nat) := if w = "-" then some none else w.toNat?.map some
+
+def modsOfMask (n : Nat) : Mods :=
+  { shift := n % 2 = 1, alt := (n / 2) % 2 = 1, ctrl := (n / 4) % 2 = 1, metaKey := (n / 8) % 2 = 1 }
+
+def optMods (w : String) : Option (Option Mods) :=
+  if w = "-" then some none else w.toNat?.bind fun n => if n < 16 then some (some (modsOfMask n)) else none
+
+def parseParams (w : String) : Option (List (Option Nat)) :=
+  if w = "_" then some [] else (w.splitOn ",").mapM optNat
+
+def enterForm : String → Option EnterForm
+  | "crlf" => some .crlf | "lfcr" => some .lfcr | "crnul" => some .crnul | "cr" => some .cr | "lf" => some .lf
+  | _ => none
+
+def markerOf : String → Option (Option Marker)
+  | "n" => some none | "q" => some (some .question) | "g" => some (some .greater) | "b" => some (some .bang)
+  | _ => none
+
+def buttons : List Button := [.left, .middle, .right, .release, .motion, .wheelUp, .wheelDown]
+
+def parseItem (w : String) : Option Item :=
+  match w.toList with
+  | [] => none
+  | 'c' :: rest => match unhexList rest with | [b] => some (.char b) | _ => none
+  | 'e' :: ':' :: rest => (enterForm (String.ofList rest)).map .enter
+  | kind :: ic :: ':' :: rest => do
+    let i ← parseIntro ic
+    let fs := (String.ofList rest).splitOn ":"
+    match kind, fs with
+    | 'k', [k, r, m] => do
+      let key ← CsiKey.all[(← k.toNat?)]?
+      return .csiKey i key (← optNat r) (← optMods m)
+    | 's', [k] => do return .ss3Key i (← Ss3Key.all[(← k.toNat?)]?)
+    | 'p', [k, m] => do return .keypad i (← PadKey.all[(← k.toNat?)]?) (← optMods m)
+    | 'q', [mk, ps, f] => do
+      match unhex f with
+      | [fb] => return .csi i (← markerOf mk) (← parseParams ps) fb
+      | _ => none
+    | 'm', [b, x, y] => do return .mouse i (← buttons[(← b.toNat?)]?) (← x.toNat?) (← y.toNat?)
+    | _, _ => none
+  | _ => none
+
+/-- chunks of every run of the case line -/
+def caseRuns (rest : String) : List (List (List Byte)) :=
+  (rest.splitOn "/").map fun r => (parseRun r).getD []
+
+structure RealDelivery where
+  calls : String
+  toks : List String
+
+def parseDelivery (d : String) : RealDelivery :=
+  match d.splitOn ":" with
+  | c :: rest => { calls := c.trimAscii.toString, toks := words (":".intercalate rest) }
+  | [] => { calls := "", toks := [] }
+
+def realRuns (real : String) : List (List RealDelivery) :=
+  (real.splitOn " / ").map fun r =>
+    if r.trimAscii.toString = "." then [] else (r.splitOn " ; ").map parseDelivery
+
+def allOneCallback (runs : List (List RealDelivery)) : Bool := runs.all fun r => r.all fun d => d.calls = "1"
+
+def runToks (r : List RealDelivery) : List String := r.flatMap (·.toks)
+
+/-! ### C05 -/
+
+/-- index and contents of the first position where two token lists differ -/
+def firstDiff : List String → List String → Nat → Nat × String × String
+  | a :: as, b :: bs, i => if a = b then firstDiff as bs (i + 1) else (i, a, b)
+  | a :: _, [], i => (i, a, "<nothing>")
+  | [], b :: _, i => (i, "<nothing>", b)
+  | [], [], i => (i, "", "")
+
+def oracleC05 (itemWords : List String) (rest real : String) : String :=
+  match itemWords.mapM parseItem with
+  | none => "FAIL C05 generator: unparsable item list"
+  | some items =>
+    let bytes := (caseRuns rest).headD [] |>.flatten
+    if bytes ≠ items.flatMap Item.bytes then
+      s!"FAIL C05 generator: bytes of the case {hex bytes} are not the bytes of the items {hex (items.flatMap Item.bytes)}"
+    else if !(items.all Item.wf) then "FAIL C05 generator: ill-formed item"
+    else if !(adjacent items) then "ok"   -- ambiguous stream: outside the statement
+    else
+      let expected := items.map fun it => showToken it.expected
+      let got := runToks ((realRuns real).headD [])
+      if got ≠ expected then
+        let diff := firstDiff expected got 0
+        s!"FAIL C05 token {diff.1}: expected {diff.2.1} got {diff.2.2} -- all expected [{" ".intercalate expected}] got [{" ".intercalate got}]"
+      else if !(allOneCallback (realRuns real)) then "FAIL C05 C06 callback count is not 1 per delivery"
+      else "ok"
+
+/-! ### C06 -/
+
+def oracleC06 (rest real : String) : String :=
+  let cruns := caseRuns rest
+  let rruns := realRuns real
+  let streams := cruns.map List.flatten
+  match streams.getLast?, rruns.getLast? with
+  | some ref, some rref =>
+    if !(streams.all (· = ref)) then "FAIL C06 generator: runs are not partitions of one stream"
+    else if cruns.length ≠ rruns.length then "FAIL C06 answer has a different number of runs"
+    else if !((cruns.zip rruns).all fun (c, r) => c.length = r.length) then
+      "FAIL C06 number of reported deliveries differs from the number of deliveries made"
+    else if !(allOneCallback rruns) then "FAIL C06 a delivery did not cause exactly one callback"
+    else if !(rruns.all fun r => runToks r = runToks rref) then
+      s!"FAIL C06 tokens depend on the partition: one-chunk run gives [{" ".intercalate (runToks rref)}]"
+    else "ok"
+  | _, _ => "ok"
+
+/-! ### C07 -/
+
+/-- one `garbage…,letters,suffix / suffix` pair -/
+def judgeC07 (r1 r2 : List (List Byte)) (a1 a2 : List RealDelivery) : Option String :=
+  match r1.reverse, r2 with
+  | s :: ls :: _, [suffix] =>
+    if s ≠ suffix ∨ ls.length ≠ 4 ∨ !(ls.all isLetter) then some "generator: not garbage,letters,suffix / suffix"
+    else if a1.length ≠ r1.length ∨ a2.length ≠ 1 then some "number of reported deliveries differs"
+    else if !(allOneCallback [a1, a2]) then some "C06 a delivery did not cause exactly one callback"
+    else
+      let after := (a1.getLast?.map (·.toks)).getD []
+      if after ≠ runToks a2 then
+        some s!"not resynchronised after {hex (r1.dropLast.flatten)}: suffix decodes to [{" ".intercalate after}], on a fresh terminal to [{" ".intercalate (runToks a2)}]"
+      else none
+  | _, _ => some "generator: malformed pair"
+
+def pairUp {α} : List α → List (α × α)
+  | a :: b :: r => (a, b) :: pairUp r
+  | _ => []
+
+def oracleC07 (rest real : String) : String :=
+  let cr := caseRuns rest
+  let rr := realRuns real
+  if cr.length % 2 ≠ 0 ∨ cr.length ≠ rr.length then "FAIL C07 generator: expected pairs of runs, answered one to one" else
+  match ((pairUp cr).zip (pairUp rr)).filterMap fun ((r1, r2), (a1, a2)) => judgeC07 r1 r2 a1 a2 with
+  | [] => "ok"
+  | e :: _ => "FAIL C07 " ++ e
+
+/-! ### C20 -/
+
+def parseSeq (fs : List String) : Option CtrlSeq :=
+  match fs with
+  | [i, c, m, e, args] =>
+    match unhex i, unhex c, unhex e with
+    | [ib], [cb], [eb] =>
+      some { initiator := ib, command := cb, metaFlag := m = "1", extender := eb,
+             args := if args = "~" then [] else (args.splitOn ",").map unhex }
+    | _, _, _ => none
+  | _ => none
+
+/-- failure kinds of one real token (empty = fine) -/
+def judgeToken (tok : String) : List String :=
+  match tok.toList with
+  | 'K' :: rest =>
+    match (String.ofList rest).splitOn "." with
+    | k :: _ :: _ :: s :: more =>
+      match k.toNat? with
+      | none => [s!"unparsable {tok}"]
+      | some key =>
+        if !isAbstractKey key then [] else
+        match s.toList with
+        | 'b' :: hh =>
+          if key = Consts.vk_enter ∧ hh = ['0', 'a'] then [] else [s!"idle-byte 0x{String.ofList hh}"]
+        | 'c' :: i =>
+          match parseSeq (String.ofList i :: more) with
+          | none => [s!"unparsable {tok}"]
+          | some c =>
+            if designates c key then []
+            else if c.args.any fun a => a.all isDigit ∧ 2147483648 ≤ parseDec a 0 then ["atoi-wrap"]
+            else [s!"undesignated {tok}"]
+        | _ => [s!"unparsable {tok}"]
+    | _ => [s!"unparsable {tok}"]
+  | _ => []
+
+def oracleC20 (cfgWords : List String) (rest real : String) : String :=
+  let rruns := realRuns real
+  let stream := (rruns.flatMap runToks).flatMap judgeToken
+  let single : List String :=
+    if cfgWords = ["byte"] then
+      match caseRuns rest, rruns with
+      | [chunks], [ans] =>
+        match chunks.reverse, ans.reverse with
+        | [b] :: before, last :: _ =>
+          let swallowed := (before = [[0x0D]] ∧ (b = 0x0A ∨ b = 0x00)) ∨ (before = [[0x0A]] ∧ b = 0x0D)
+          if !isOrdinary b ∨ swallowed then []
+          else if last.toks = [s!"K{b.toNat}.0.1.b{hex2 b}"] ∧ !isAbstractKey b.toNat then []
+          else if isAbstractKey b.toNat then [s!"idle-byte 0x{hex2 b}"]
+          else [s!"misreported-byte 0x{hex2 b}"]
+        | _, _ => ["generator: bad byte case"]
+      | _, _ => ["generator: bad byte case"]
+    else []
+  let fails := (single ++ stream).eraseDups
+  if fails.isEmpty then "ok" else "FAIL C20 " ++ "; ".intercalate fails
 
 /-- oracle verdict (`ok` / `FAIL <ids> …`) given the case, the configuration prefix and the real answer -/
-def oracle (_kind : Char) (_cfg _rest _real : String) : Option String := none
+def oracle (kind : Char) (cfg rest real : String) : Option String :=
+  if kind ≠ 'I' then none else
+  match words cfg with
+  | "C05" :: items => some (oracleC05 items rest real)
+  | "C06" :: _ => some (oracleC06 rest real)
+  | "C07" :: _ => some (oracleC07 rest real)
+  | "C20" :: ws => some (oracleC20 ws rest real)
+  | _ => some "ok"
 
 end Tpp.Driver.Input
